@@ -2,10 +2,10 @@ package main
 
 import (
 	"encoding/json"
-	"runtime/pprof"
 	"flag"
 	"fmt"
 	"os"
+	"runtime/pprof"
 	"strings"
 	"time"
 
